@@ -206,9 +206,9 @@ pub fn find_grid(r: &mut Runner, rev: bool) {
 /// Multi-page haystacks with sparse matches.
 fn long_haystacks(r: &mut Runner, rev: bool) {
     let sizes: &[usize] = if r.tier == Tier::Thorough {
-        &[4096, 4097, 65536, 65539, 300_000, 1 << 20]
+        &[4096, 4097, 8192, 8193, 16385, 65535, 65536, 65539, 300_000, 1 << 20]
     } else {
-        &[4096, 4097, 65539]
+        &[4096, 4097, 8193, 65536, 65539]
     };
     let apis = byte_apis(r, rev, false);
     let mut unit = 0u64;
